@@ -24,6 +24,22 @@ VTick(d, refresh) ==
                          !.oracles = IF refresh THEN [o \in DOMAIN @ |-> [@[o] EXCEPT !.ts = now2]] ELSE @]
   IN Do(a, "ok", post, [clock |-> post.clock])
 
+\* ---- classic liquidation of venue collateral: the largest seizure the program accepts, with its successor
+CONSTANTS VLiqCases,     \* set of <<liquidator, liquidatee, asset bank, liab bank>>
+          VLiqProbes, VLiqTop
+VEval(t, q) == LiquidateEval(t[1], t[2], t[3], t[4], q)
+VAct(t, q) == Liquidate(t[1], t[2], t[3], t[4], q)
+RECURSIVE BisectV(_, _, _)
+BisectV(t, lo, hi) ==
+  IF hi - lo <= 1 THEN lo
+  ELSE LET mid == lo + (hi - lo) \div 2 IN IF VEval(t, mid).r = "ok" THEN BisectV(t, mid, hi) ELSE BisectV(t, lo, mid)
+BoundarySeizeV(t) ==
+  LET oks == {p \in VLiqProbes : VEval(t, p).r = "ok"} IN
+  IF oks = {} \/ VEval(t, VLiqTop).r = "ok" THEN VAct(t, VLiqTop)
+  ELSE LET lo == CHOOSE p \in oks : \A x \in oks : x <= p
+           m == BisectV(t, lo, VLiqTop)
+       IN \E x \in {m, m + 1} : VAct(t, x)
+
 NextV ==
   /\ depth < MaxDepth
   /\ \/ \E d \in Ticks : VTick(d, TRUE)
@@ -37,6 +53,8 @@ NextV ==
      \/ \E bn \in DBanks : DRefresh(bn)
      \/ \E bn \in DBanks, cum \in DCums : DInterest(bn, cum)
      \/ \E p \in BoundaryPairs : BoundaryBorrow(p[1], p[2])
+     \/ \E t \in VLiqCases : BoundarySeizeV(t)
+     \/ \E t \in VLiqCases, q \in VLiqProbes : VAct(t, q)
 SpecV == Init /\ [][NextV]_vars
 
 ViewV == <<VView, ViewR, [m \in DOMAIN MarketsOf(st) |-> <<st.markets[m].ts, st.markets[m].cum>>]>>
